@@ -106,9 +106,9 @@ def processor : Processor Tracker where
 def apply (b : Block) : Block := (Visitor.runScoped processor b Tracker.new).1
 
 /-- `RemoveCompoundAssignment::replace_compound_assignment` (used by `remove_floor_division`):
-`ScopeVisitor::visit_statement` on ONE statement with a FRESH processor — the enclosing scopes
-are unknown to its tracker. -/
-def replaceCompoundAssignment (s : Stmt) : Stmt :=
-  (Visitor.visitStmt processor true (8 * s.size + 64) s Tracker.new).1
+`ScopeVisitor::visit_statement` on ONE statement with a processor that takes over the CALLER's
+identifier tracker and hands it back afterwards. -/
+def replaceCompoundAssignment (s : Stmt) (t : Tracker) : Stmt × Tracker :=
+  Visitor.visitStmt processor true (8 * s.size + 64) s t
 
 end DarkluaModel.Rules.RemoveCompoundAssign
